@@ -71,12 +71,18 @@ HARNESSES: Dict[str, dict] = {
     # leaves (the master's polling pattern: subscribe, handle one, break, close, poll again)
     "H14-eighteen-channels-polling-consumer": {
         "pre": [(f"k.{i:02d}", 0) for i in range(18)], "pubs": [[("k.03", 1), ("k.17", 1)]], "subs": [], "pollers": ["k.*"], "drain": ["*"]},
+    # the transport (with a pending message and an open subscription) was built by another process: what a forked child sees is the same
+    # objects under a different os.getpid()
+    "H15-used-in-a-forked-child": {
+        "pre": [("d.1", 0)], "pubs": [[("c.1", 0), ("c.1", 1)], [("c.2", 0), ("c.1", 0)]], "subs": ["d.*"], "preopen": ["c.*"], "drain": ["*"],
+        "pid_changes": True},
     "H10-preopened-exact-and-concurrent-subscriber": {
         "pre": [], "pubs": [[("c.1", 0)], [("c.1", 0)]], "subs": ["c.?"], "preopen": ["c.1"], "drain": ["*"]},
 }
 
 
 BARE = ("<bare>", "<bare>", -1)
+_REAL_GETPID = os.getpid
 
 
 def run_harness(name: str, prefix: List[int]) -> sched.Execution:
@@ -114,6 +120,8 @@ def run_harness(name: str, prefix: List[int]) -> sched.Execution:
             published.append(send(item[0], "pre", item[1], *item[2:]))
         consumed: Dict[str, List[Any]] = collections.OrderedDict()
         preopened = [(pat, t.subscribe(pat)) for pat in h.get("preopen", [])]
+        if h.get("pid_changes"):
+            os.getpid = lambda _p=_REAL_GETPID() + 1: _p
         tid = 0
         for pi, script in enumerate(h["pubs"]):
             def pub(script=script, pi=pi):
@@ -170,6 +178,7 @@ def run_harness(name: str, prefix: List[int]) -> sched.Execution:
         return x
     finally:
         _CUR[0] = None
+        os.getpid = _REAL_GETPID
 
 
 def judge(x: sched.Execution) -> Optional[Tuple[str, str]]:
@@ -249,13 +258,13 @@ def check(tier: str, seed: int) -> Result:
     if tier == "quick":
         plan = [("H1-two-publishers-new-channel", 2), ("H2-publishers-and-subscriber", 1), ("H3-routing-two-channels", 1),
                 ("H4-existing-channel", 1), ("H6-two-subscribers", 1), ("H7-one-message-each-two-new-channels", 1),
-                ("H8-one-publisher-one-subscriber", 2), ("H9-subscription-opened-before-channels-exist", 1), ("H10-preopened-exact-and-concurrent-subscriber", 1), ("H11-message-shapes", 1), ("H12-connect-and-close-around-traffic", 1), ("H13-publish-before-anyone-connects", 1), ("H14-eighteen-channels-polling-consumer", 0)]
+                ("H8-one-publisher-one-subscriber", 2), ("H9-subscription-opened-before-channels-exist", 1), ("H10-preopened-exact-and-concurrent-subscriber", 1), ("H11-message-shapes", 1), ("H12-connect-and-close-around-traffic", 1), ("H13-publish-before-anyone-connects", 1), ("H14-eighteen-channels-polling-consumer", 0), ("H15-used-in-a-forked-child", 1)]
         cap = 400000
     else:
         plan = [("H1-two-publishers-new-channel", 3), ("H2-publishers-and-subscriber", 3), ("H3-routing-two-channels", 2),
                 ("H4-existing-channel", 3), ("H5-three-publishers", 2), ("H6-two-subscribers", 2),
                 ("H7-one-message-each-two-new-channels", 3), ("H8-one-publisher-one-subscriber", 3),
-                ("H9-subscription-opened-before-channels-exist", 2), ("H10-preopened-exact-and-concurrent-subscriber", 3), ("H11-message-shapes", 2), ("H12-connect-and-close-around-traffic", 2), ("H13-publish-before-anyone-connects", 2), ("H14-eighteen-channels-polling-consumer", 1)]
+                ("H9-subscription-opened-before-channels-exist", 2), ("H10-preopened-exact-and-concurrent-subscriber", 3), ("H11-message-shapes", 2), ("H12-connect-and-close-around-traffic", 2), ("H13-publish-before-anyone-connects", 2), ("H14-eighteen-channels-polling-consumer", 1), ("H15-used-in-a-forked-child", 2)]
         cap = 3000000
     jobs = []
     per: Dict[str, dict] = {}
@@ -328,3 +337,28 @@ def replay(case) -> List[Violation]:
     x = run_harness(case["harness"], case["choices"])
     bad = judge(x)
     return [Violation(bad[0], f"{case['harness']}: {bad[1]}", case)] if bad else []
+
+
+
+# ---------------------------------------------------------------------------------------------
+# environment grid (mc/envgrid.py): a fixed, enumerated family of schedules of every harness, judged in every environment
+
+def env_cases(tier: str):
+    out = []
+    for name in sorted(HARNESSES):
+        x = run_harness(name, [])
+        out.append({"harness": name, "prefix": []})
+        alts = [(i, a) for i, p in enumerate(x.points) for a in range(1, len(p.enabled))]
+        for i, a in alts[:: max(1, len(alts) // (4 if tier == "quick" else 40))]:
+            out.append({"harness": name, "prefix": x.choices[:i] + [a]})
+    return out
+
+
+def env_observe(case):
+    try:
+        x = run_harness(case["harness"], list(case["prefix"]))
+    except sched.ReplayDivergence:
+        # python -O / -OO compile other line tables: a choice sequence recorded in the base environment may not exist there
+        return {"judged": None, "deadlock": False, "livelock": False}
+    bad = judge(x)
+    return {"judged": bad[0] if bad else None, "deadlock": x.deadlock, "livelock": x.livelock}
